@@ -156,7 +156,21 @@ def run(ctx):
                 lo = lbs[i] if math.isfinite(lbs[i]) else -3.0
                 hi = ubs[i] if math.isfinite(ubs[i]) else 3.0
                 x.append(lo + (hi - lo) * t.randint(0, 8, f"p{j}[{i}]") / 8.0)
+        if j and t.flag(0.3, f"near_duplicate[{j}]"):
+            # a distinct physical point a few hundred ulps away from an earlier one
+            base = points[t.choice(j, f"dup_of[{j}]")].copy()
+            free = [i for i in range(dim) if not is_int[i] and lbs[i] != ubs[i]]
+            if free:
+                i = free[t.choice(len(free), f"dup_comp[{j}]")]
+                base[i] = base[i] * (1 - 3e-13) if base[i] != 0 else 3e-13
+                x = base.tolist()
+                ctx.probe("near_duplicate_point")
         points.append(array(x))
+
+    def same_key(a, b):
+        """Same physical point up to a few ulps (the harness recomputes the affine map independently)."""
+        a, b = np.asarray(a, dtype=float), np.asarray(b, dtype=float)
+        return a.shape == b.shape and bool(np.all(np.abs(a - b) <= 2e-14 * np.maximum(1.0, np.maximum(np.abs(a), np.abs(b)))))
 
     def to_norm(x):
         return np.where(normalizable, (x - np.where(normalizable, lb_a, 0.0)) / np.where(span == 0, 1.0, span), x)
@@ -192,6 +206,9 @@ def run(ctx):
             rec = p.database.get(xp)
             if rec is not None:
                 return xp, rec
+            for k2, rec in p.database.items():
+                if same_key(k2.wrapped_array, xp):
+                    return k2.wrapped_array, rec
         return None, None
 
     for i in range(n_ops):
@@ -240,8 +257,12 @@ def run(ctx):
             if (name, want_jac, key_exact) in requested:
                 repeated = True
             had_record = use_db and any(
-                (name if not want_jac else "@" + name) in rec for k2, rec in model.items() if np.allclose(k2, x_key, rtol=0, atol=1e-12)
+                (name if not want_jac else "@" + name) in rec for k2, rec in model.items() if same_key(k2, x_key)
             )
+            # the (un)normalisation round trip can record "the same" point under keys one ulp apart:
+            # with such twins the memoisation of this request is ambiguous and only faithfulness is checked
+            twins_before = [k2 for k2 in model if same_key(k2, x_key)] if use_db else []
+            ambiguous = len(twins_before) > 1
             n_before = p.evaluation_counter.current
             budget_exhausted = p.evaluation_counter.maximum_is_reached
             exc = None
@@ -294,10 +315,16 @@ def run(ctx):
                 seen = fns[name].calls[-1]
                 if not np.allclose(seen, xp, rtol=1e-12, atol=1e-12):
                     ctx.violate("C01.physical_point", sig, f"{name} was called at {seen} for the request {ops[-1]} whose physical point is {xp}; cfg={cfg}")
-            if had_record and (new_calls or new_jcalls):
+            if use_db and len([k2 for k2 in p.database.keys() if same_key(k2.wrapped_array, x_key)]) > 1:
+                ambiguous = True
+            if ambiguous:
+                ctx.probe("ulp_twin_keys")
+            if had_record and (new_calls or new_jcalls) and not ambiguous:
                 ctx.violate("C01.memoised", sig, f"the original function was called again ({new_calls} value / {new_jcalls} Jacobian calls) for the recorded request {ops[-1]}; ops={ops}")
             if had_record:
                 ctx.probe("served_from_database")
+            elif use_db and name != "lin" and not ambiguous and not (new_jcalls if (want_jac and user_jac) else new_calls):
+                ctx.violate("C01.faithful_value", sig + " not-evaluated", f"{ops[-1]}: the point {x_key} has no record for this request, yet the original function was not called (served from another point?); ops={ops}")
             if not want_jac:
                 exp = true_value(name, xp)
                 got = np.atleast_1d(np.asarray(val, dtype=float))
@@ -321,7 +348,12 @@ def run(ctx):
                 rec_exp = ju * np.where((span == 0) & normalizable & normalize, 0.0, 1.0)
                 rname = "@" + name
             # the database records exactly that, under the physical point
-            if use_db and (not want_jac or store_jac):
+            if use_db and ambiguous:
+                for k2, rec in p.database.items():
+                    if same_key(k2.wrapped_array, x_key):
+                        for rn, v in rec.items():
+                            model.setdefault(tuple(float(u) for u in k2.wrapped_array), {}).setdefault(rn, v)
+            elif use_db and (not want_jac or store_jac):
                 kx, rec = db_record([x_key])
                 if rec is None or rname not in rec:
                     ctx.violate("C01.recorded", sig, f"after {ops[-1]} the database has no record {rname} under the physical point {xp}: {rec}; ops={ops}")
@@ -343,7 +375,7 @@ def run(ctx):
     if use_db:
         for x, rec in p.database.items():
             k = tuple(float(v) for v in x.wrapped_array)
-            m = next((mv for mk, mv in model.items() if len(mk) == len(k) and np.allclose(mk, k, rtol=0, atol=1e-12)), None)
+            m = model.get(k)
             for rname, v in rec.items():
                 if m is None or rname not in m:
                     if rname.lstrip("@") in ("f", "g", "lin"):
